@@ -79,7 +79,7 @@ def closure(config, vis, targets):
     state = {}
 
     def visit(d, chain):
-        k = ident(d) + "@" + d["dir"]
+        k = file_of(d)  # one node per FILE (several files may encode one identity)
         if state.get(k) == "done":
             return
         if any(c is d or (c["name"] == d["name"] and c["ver"] == d["ver"]) for c in chain):
